@@ -7,7 +7,8 @@ import checklib as C
 
 MODULE = "Rspirv.Props.C12"
 THEOREMS = ["Rspirv.Props.C12.insertIntoBlock_spec", "Rspirv.Props.C12.step_spec", "Rspirv.Props.C12.C12_conditions",
-            "Rspirv.Props.C12.C12_run", "Rspirv.Props.C12.selValid_new"]
+            "Rspirv.Props.C12.C12_run", "Rspirv.Props.C12.selValid_new", "Rspirv.Props.C12.ok_selectByName",
+            "Rspirv.Props.C12.ok_selectFunction", "Rspirv.Props.C12.ok_selectBlock", "Rspirv.Props.C12.ok_popInstruction"]
 NEEDS = ("header", "core", "decode", "operand_enum", "asm_arms", "parse_operand", "operands", "builder")
 
 
@@ -134,8 +135,12 @@ def gen_history(rnd, n):
                             "insert_types_global_values/" + rnd.choice(["E", "B", "FB:0", "FE:0"]) + "/19;-;44;-"])
         elif r < 0.80:
             c = rnd.choice(["variable/1/-/7/-", "undef/1/-", "line/1/2/3", "no_line"])
-        elif r < 0.88:
+        elif r < 0.86:
             c = "select_function/" + rnd.choice(["-", "0", "1", "2", "7"])
+        elif r < 0.88:
+            # OpName for ids that are (77) or may be (small fresh ids) function ids, and selection through them
+            c = rnd.choice(["name/77/66", "name/%d/66" % rnd.randrange(1, 9), "name/%d/67" % rnd.randrange(1, 9), "name/5/66",
+                            "select_function_by_name/66", "select_function_by_name/66", "select_function_by_name/67", "select_function_by_name/7a"])
         elif r < 0.95:
             c = "select_block/" + rnd.choice(["-", "0", "1", "2", "7"])
         else:
@@ -145,11 +150,38 @@ def gen_history(rnd, n):
     return "build " + " ".join(calls)
 
 
+def selection_valid(resp):
+    """the final selection designates an existing function and block of the dumped module, or nothing"""
+    parts = resp.split(" | ")
+    sf, sb = parts[1][4:].split(",")
+    fns = parts[2].split(" F ")[1:]
+    if sf == "-":
+        return None if sb == "-" else f"block {sb} selected without a function"
+    if int(sf) >= len(fns):
+        return f"selected function {sf} of {len(fns)}"
+    nblocks = len(fns[int(sf)].split(" B ")) - 1
+    if sb != "-" and int(sb) >= nblocks:
+        return f"selected block {sb} of {nblocks} in function {sf}"
+    return None
+
+
 def oracle(req, resp):
     if resp.startswith("panic"):
         return "a Builder call panicked: " + resp[6:90]
     if not resp.startswith("ok "):
         return None if resp.startswith("bad-request") else "unexpected: " + resp[:60]
+    bad = selection_valid(resp)
+    if bad:
+        return "the selection does not designate an existing function/block: " + bad
+    if "select_function_by_name/" in req:
+        # which function a name selects depends on the ids allocated so far: the structural expectations below are not
+        # simulated for these histories (the differential with the model carries the exact behaviour); after a successful
+        # selection by name no block is selected
+        calls = req.split(" ")[1:]
+        outs = resp.split(" | ")[0].split(" ")[1:]
+        if calls and calls[-1].startswith("select_function_by_name/") and outs[-1] == "ok" and resp.split(" | ")[1][4:].split(",")[1] != "-":
+            return "select_function_by_name succeeded and left a block selected"
+        return None
     calls = req.split(" ")[1:]
     outs = resp.split(" | ")[0].split(" ")[1:]
     sim = Sim()
@@ -189,6 +221,18 @@ def run(ctx):
     alpha = ["begin_function/1/-/0/2", "end_function", "begin_block/-", "ret", "nop", "function_parameter/1",
              "capability/1", "variable/1/-/7/-", "select_function/0", "select_block/0", "select_function/-", "pop_instruction",
              "insert_nop/B", "line/1/2/3"]
+    # selection by name: two or three functions with known ids (77, 78, fresh), names for function ids and for other ids,
+    # a block selected or open beforehand, and every call kind afterwards
+    two = "begin_function/1/77/0/2 begin_block/- ret begin_block/- ret end_function begin_function/1/78/0/2 begin_block/- ret end_function"
+    names = ["name/77/66", "name/78/67", "name/5/66 name/77/66", "name/77/66 name/78/66", "name/78/68 name/77/68", "name/3/69"]
+    before = ["", "select_function/0 select_block/1", "select_function/1 select_block/0", "select_function/0 select_block/0",
+              "begin_function/1/-/0/2 begin_block/-", "select_function/1"]
+    after = ["", "nop", "ret", "begin_block/-", "pop_instruction", "variable/1/-/7/-", "select_block/1", "end_function", "function_parameter/1", "line/1/2/3"]
+    for nm in names:
+        for bf in before:
+            for by in ("66", "67", "68", "69", "7a"):
+                for af in after:
+                    reqs.append(" ".join(x for x in ("build", two, nm, bf, "select_function_by_name/" + by, af) if x))
     maxlen = 4 if ctx.tier == "quick" else 5
     for n in range(1, maxlen + 1):
         for w in itertools.product(alpha, repeat=n):
